@@ -481,6 +481,92 @@ fn e2e_case(r: &mut Rng, allow_empty_frames: bool, res: &mut CaseResult) {
     res.sample = Some(json!({"channels": nch, "consumers": plans.iter().map(|p| p.consumers).collect::<Vec<_>>(), "gets": plans.iter().map(|p| p.gets.len()).collect::<Vec<_>>(), "messages": total_msgs, "server_frames": frames_sent, "frame_max": fm, "segmentation": seg_desc, "empty_body_frames": allow_empty_frames}));
 }
 
+/// A headers table with a long-string value that is not UTF-8 (AMQP: "long strings can
+/// contain any data"; brokers relay them unchanged), followed by more entries. The message
+/// has to arrive with all of them - or not pretend to have arrived intact.
+fn binary_header_case(variant: u64, res: &mut CaseResult) {
+    use amq_protocol::protocol::basic::AMQPMethod as B;
+    use amq_protocol::protocol::{basic, AMQPClass};
+    let (conn, h) = session::open_default(Reflex::default());
+    let mut conn = match conn {
+        Ok(c) => c,
+        Err(e) => {
+            res.inconclusive(format!("handshake: {}", ek(&e)));
+            return;
+        }
+    };
+    let ch = match conn.open_channel(None) {
+        Ok(c) => c,
+        Err(e) => {
+            res.inconclusive(format!("open_channel: {}", ek(&e)));
+            return;
+        }
+    };
+    let cons = match ch.basic_consume("q", ConsumerOptions::default()) {
+        Ok(c) => c,
+        Err(e) => {
+            res.inconclusive(format!("consume: {}", ek(&e)));
+            return;
+        }
+    };
+    let id = ch.channel_id();
+    // the table, by hand: a-before = I 1, bin = S <bytes>, z-after = I 7
+    let bin: &[u8] = if variant % 2 == 0 { &[0xff, 0xfe, 0x00, 0x80] } else { &[0xc3, 0x28, 0xa0, 0xa1, 0xe2, 0x28] };
+    let mut table: Vec<u8> = Vec::new();
+    let mut entry = |name: &str, ty: u8, val: &[u8]| {
+        table.push(name.len() as u8);
+        table.extend_from_slice(name.as_bytes());
+        table.push(ty);
+        table.extend_from_slice(val);
+    };
+    entry("a-before", b'I', &1i32.to_be_bytes());
+    let mut s_val = (bin.len() as u32).to_be_bytes().to_vec();
+    s_val.extend_from_slice(bin);
+    entry("bin", b'S', &s_val);
+    entry("z-after", b'I', &7i32.to_be_bytes());
+    let body = b"payload".to_vec();
+    let mut hp: Vec<u8> = Vec::new();
+    hp.extend_from_slice(&60u16.to_be_bytes());
+    hp.extend_from_slice(&0u16.to_be_bytes());
+    hp.extend_from_slice(&(body.len() as u64).to_be_bytes());
+    hp.extend_from_slice(&0x2000u16.to_be_bytes()); // only the headers property
+    hp.extend_from_slice(&(table.len() as u32).to_be_bytes());
+    hp.extend_from_slice(&table);
+    let mut bytes = wire::enc_method(
+        id,
+        AMQPClass::Basic(B::Deliver(basic::Deliver { consumer_tag: cons.consumer_tag().to_string(), delivery_tag: 1, redelivered: false, exchange: "x".into(), routing_key: "k".into() })),
+    );
+    bytes.extend(wire::enc_raw(wire::T_HEADER, id, &hp));
+    bytes.extend(wire::enc_body(id, &body));
+    h.inject(bytes);
+    match cons.receiver().recv_timeout(W) {
+        Ok(ConsumerMessage::Delivery(d)) => {
+            res.obs("deliveries_checked", 1);
+            let n = d.properties.headers().as_ref().map(|t| t.len()).unwrap_or(0);
+            let keys: Vec<String> = d.properties.headers().as_ref().map(|t| t.keys().cloned().collect()).unwrap_or_default();
+            if d.body != body {
+                res.violate("delivery_content_differs", "body differs".to_string());
+            } else if n != 3 {
+                res.violate(
+                    "properties_silently_truncated",
+                    format!("headers {{a-before: I 1, bin: S {:02x?} (not UTF-8), z-after: I 7}} arrived as a table with {} entries {:?}, without any error", bin, n, keys),
+                );
+            }
+        }
+        // the connection failing loudly would at least not pretend anything
+        Ok(_) | Err(_) => {
+            res.obs("binary_header_rejected_loudly", 1);
+        }
+    }
+    std::mem::forget(cons);
+    drop(ch);
+    let t = run::spawn("close", move || conn.close());
+    let _ = t.join(W);
+    let _ = run::take_panics();
+    res.sig = crate::rng::fnv_str(&format!("binhdr{}", variant));
+    res.sample = Some(json!({"scenario": "headers table with a non-UTF-8 long string followed by another entry", "bytes": format!("{:02x?}", bin)}));
+}
+
 /// A consumer that never drains its queue delays nobody else.
 fn starvation_case(r: &mut Rng, res: &mut CaseResult) {
     let (conn, h) = session::open_default(Reflex::default());
@@ -656,6 +742,18 @@ fn compositions(n: usize, f: &mut dyn FnMut(&[usize])) {
 
 pub fn run(rc: &mut RunCtx) {
     let seed = rc.seed;
+    if !rc.miri() {
+        for v in 0..2u64 {
+            let id = format!("binary-header:{}", v);
+            if !rc.mine(&id) {
+                continue;
+            }
+            rc.begin(&id);
+            let mut res = CaseResult::new(id);
+            binary_header_case(v, &mut res);
+            rc.end(res);
+        }
+    }
     // (1) component, exhaustive: all partitions of bodies <= 7 bytes x 3 kinds
     {
         let id = "probe:exhaustive".to_string();
